@@ -1,4 +1,6 @@
 """C18 — string analysis and quoting agree with the parser: special-character sets, reserved words, margins."""
+import re
+
 from ..facts import Broken, strip, const, walk, walk_eval, macro_name, show
 from ..interp import path
 from .. import cfgq, scantab
@@ -53,7 +55,7 @@ def reserved_string_model(fn):
             if isinstance(c, dict) and c.get("k") == "index" and path(strip(c.get("base"))) == "str":
                 switches.append((b, const(c.get("idx"))))
     if not switches:
-        raise Broken("cif_is_reserved_string: switch on str[k] not found")
+        raise Broken("cif_is_reserved_string: switch on str[k] not found")       # the outer dispatch on the first character
     rets = {n["id"]: (b.id, i, n) for (b, i, r, n) in fn.returns()}
     # constraints from case labels: ret id -> {k: set(values)}
     cons = {rid: {} for rid in rets}
@@ -69,6 +71,26 @@ def reserved_string_model(fn):
             for rid, (rb, ri, rn) in rets.items():
                 if rb in reach:
                     cons[rid].setdefault(k, set()).add(lab["v"])
+    # the same selection written with if / else-if: `str[k] == V` whose true outcome leads to the return
+    for b in fn.blocks.values():
+        if len(b.succs) != 2 or b.succs[0] is None:
+            continue
+        c = cfgq.cond_of(fn, b)
+        cs = strip(c) if c is not None else None
+        if not (isinstance(cs, dict) and cs.get("k") == "bin" and cs.get("op") == "=="):
+            continue
+        l = strip(cs.get("lhs"))
+        if not (isinstance(l, dict) and l.get("k") == "index" and path(strip(l.get("base"))) == "str"):
+            continue
+        k, v = const(l.get("idx")), const(cs.get("rhs"))
+        if k is None or v is None:
+            continue
+        # only selections made by statements (the terminator is an if or a short-circuit operand of one), not the
+        # comparisons inside a returned expression
+        reach_t = cfgq.reach(fn, [b.succs[0]]) | {b.succs[0]}
+        for rid, (rb, ri, rn) in rets.items():
+            if rb in reach_t and not any(x.get("id") == cs.get("id") for x in walk(rn.get("e") or {})):
+                cons[rid].setdefault(k, set()).add(v)
     first_one = set()
     words = {}
     for rid, (rb, ri, rn) in rets.items():
@@ -327,14 +349,32 @@ def run(prog, chk):
     if not stores:
         raise Broken("cif_value_set_quoted_impl: the store `as_char.quoted = %s` of the unquoting branch was not found" % qparam)
 
+    # locals that are nothing but the text pointer (`const UChar *text = value->as_char.text;`)
+    text_alias = set()
+    defs_ = {}
+    for (b, i, r, x) in sq.eval_sites():
+        if x.get("k") == "decl":
+            for v in x.get("vars", []):
+                if v.get("init") is not None:
+                    defs_.setdefault(v["name"], []).append(path(strip(v["init"])) or "?")
+        elif x.get("k") == "asg" and isinstance(strip(x.get("lhs")), dict) and strip(x["lhs"]).get("k") == "ref":
+            defs_.setdefault(strip(x["lhs"])["name"], []).append(path(strip(x.get("rhs"))) or "?" if x.get("op") == "=" else "?")
+    for nm, ds in defs_.items():
+        if ds and all(d.endswith("as_char.text") for d in ds):
+            text_alias.add(nm)
+
+    def is_text(e):
+        pth = path(strip(e)) or ""
+        return pth.endswith("as_char.text") or pth in text_alias
+
     def first_char(e):
         e = strip(e)
         if not isinstance(e, dict):
             return False
         if e.get("k") == "un" and e.get("op") == "*":
-            return (path(strip(e.get("e"))) or "").endswith("as_char.text")
+            return is_text(e.get("e"))
         if e.get("k") == "index" and const(e.get("idx")) == 0:
-            return (path(strip(e.get("base"))) or "").endswith("as_char.text")
+            return is_text(e.get("base"))
         return False
 
     def nonempty(c):
@@ -399,13 +439,23 @@ def delimiter_agreement(prog, chk):
     if len(first) < 4:
         raise Broken("delimiter arrays of cif_analyze_string not found (%s)" % sorted(first))
     quote_chars = {v for k, v in first.items() if k != "text_delim"}
-    all_copies = [(f_, b.id, i, n) for f_ in fam for (b, i, r, n) in f_.calls_to("u_strcpy")
-                  if (path(strip(n["args"][0])) or "").endswith("->delim") and path(strip(n["args"][1])) in first]
-    if {path(strip(n["args"][1])) for (_, _, _, n) in all_copies} < set(first):
+    all_copies = []
+    for f_ in fam:
+        for (b, i, r, n) in f_.calls_to("u_strcpy"):
+            if not (path(strip(n["args"][0])) or "").endswith("->delim"):
+                continue
+            src = path(strip(n["args"][1]))
+            if src in first:
+                all_copies.append((f_, b.id, i, n, src))
+            elif src and re.match(r"^\w+$", src):
+                # copied through a local pointer: each `local = <delimiter array>` is where that delimiter is chosen
+                for (b2, i2, r2, a) in f_.eval_sites("asg"):
+                    if path(strip(a.get("lhs"))) == src and path(strip(a.get("rhs"))) in first and a.get("op") == "=":
+                        all_copies.append((f_, b2.id, i2, a, path(strip(a.get("rhs")))))
+    if {d_ for (_, _, _, _, d_) in all_copies} < set(first):
         raise Broken("not every delimiter of cif_analyze_string is recommended somewhere (%s)" % sorted(first))
-    for (an, bid, idx, n) in all_copies:
+    for (an, bid, idx, n, d) in all_copies:
         branches = [(blk, cfgq.cond_of(an, blk)) for blk in an.blocks.values() if len(blk.succs) == 2 and cfgq.cond_of(an, blk) is not None]
-        d = path(strip(n["args"][1]))
         bad = []
         n_guards = 0
         for blk, c in branches:
